@@ -83,6 +83,10 @@ pub fn dispatch(ctx: &mut Ctx, op: &str, call: &Value) -> Option<Value> {
                     Some(t) => out::some(json!({"at": off((t as *const multiboot2_common::DynSizedStructure<multiboot2_header::HeaderTagHeader>).cast()),
                                                 "sv": out::num(size_of_val(t))})),
                 },
+                Some(It::Elf(it)) => match it.nth(n) {
+                    None => out::none(),
+                    Some(sec) => out::some(super::elf::section_json(&sec, None)),
+                },
                 Some(It::Efi(it)) => {
                     // through the type-erased handle: nth via the trait object's own next() would hide an override
                     match it.nth_(n) {
@@ -101,6 +105,33 @@ pub fn dispatch(ctx: &mut Ctx, op: &str, call: &Value) -> Option<Value> {
                 Some(It::HTags(it)) => out::val(it.clone().count() as u64, 8),
                 Some(It::Mods(it)) => out::val(it.clone().count() as u64, 8),
                 Some(It::Efi(it)) => out::val(it.count_() as u64, 8),
+                Some(It::Elf(it)) => out::val(it.clone().count() as u64, 8),
+                Some(_) => out::unsupported(),
+            }
+        }
+        // last() of a copy of the iterator (the iterator itself is left as it is)
+        "last" => {
+            let id = out::arg_u64(call, "it");
+            let base = ctx.base;
+            let off = |p: *const u8| json!(out::clamp(p as usize as i128 - base as usize as i128));
+            match ctx.its.get(&id) {
+                None => out::skipped(),
+                Some(It::Tags(it)) => match it.clone().last() {
+                    None => out::none(),
+                    Some(t) => out::some(json!({"at": off((t as *const multiboot2::DynSizedStructure<multiboot2::TagHeader>).cast()), "sv": out::num(size_of_val(t))})),
+                },
+                Some(It::HTags(it)) => match it.clone().last() {
+                    None => out::none(),
+                    Some(t) => out::some(json!({"at": off((t as *const multiboot2_common::DynSizedStructure<multiboot2_header::HeaderTagHeader>).cast()), "sv": out::num(size_of_val(t))})),
+                },
+                Some(It::Efi(it)) => match it.last_() {
+                    None => out::none(),
+                    Some(d) => out::some(json!({"at": off((d as *const multiboot2::EFIMemoryDesc).cast()), "sv": 40})),
+                },
+                Some(It::Elf(it)) => match it.clone().last() {
+                    None => out::none(),
+                    Some(sec) => out::some(super::elf::section_json(&sec, None)),
+                },
                 Some(_) => out::unsupported(),
             }
         }
